@@ -26,7 +26,7 @@ func (c *PPAIs) VNo() int {
 
 // GetPAI returns the requested parsed PAI body or nil.
 func (c *PPAIs) GetPAI(n int) *PFromBody {
-	if c.VNo() > n {
+	if n >= 0 && c.VNo() > n {
 		return &c.Vals[n]
 	}
 	return nil
